@@ -90,6 +90,13 @@ def subchecks(tier):
         for lam in (0.0, 0.25):
             dh.append(dict(h, cfg=dict(h["cfg"], vacuum=True, Lambda=lam,
                                        matter="none", readonly=False)))
+    # the Weyl scalars supplied directly, with exact zeros in Psi4 / Psi1
+    wp = dict(dh[0]["cfg"], extra_inputs=["weylpsi"], readonly=False)
+    for ce in (30, 2):
+        dh.append(dict(cfg=dict(wp, clear_every=ce), ops=[
+            dict(op="get", key=k) for k in
+            ("Weyl_invariants", "Weyl_Psi", "Psi4_lm", "Weyl_invariants",
+             "gammadet", "Ktrace", "Weyl_Psi")]))
     return [
         Sub("history", None, test, 128 if q else 2500, kind="machine",
             machine=factory, steps=30, shards=8 if q else 16, max_rounds=3, shrink_quick=False,
